@@ -68,6 +68,9 @@ func (f *Random) Call(s *slip.Scope, args slip.List, depth int) (result slip.Obj
 	}
 	switch limit := args[0].(type) {
 	case slip.Fixnum:
+		if limit <= 0 {
+			slip.TypePanic(s, depth, "limit", limit, "positive integer", "positive float")
+		}
 		result = slip.Fixnum(rs.Int63() % int64(limit))
 	case *slip.Bignum:
 		var z big.Int
